@@ -91,6 +91,10 @@ func (p *pooler) build(t reflect.Type, fuel int) []Gen {
 			min := int64(-1) << (bits - 1)
 			max := ^min
 			gs = append(gs, func() reflect.Value { v := reflect.New(t).Elem(); v.SetInt(min); return v })
+			if bits == 64 {
+				// a neighbour of the maximum: both have the same float64 image
+				gs = append(gs, func() reflect.Value { v := reflect.New(t).Elem(); v.SetInt(max - 1); return v })
+			}
 			gs = append(gs, func() reflect.Value { v := reflect.New(t).Elem(); v.SetInt(max); return v })
 		}
 	case reflect.Uint, reflect.Uint8, reflect.Uint16, reflect.Uint32, reflect.Uint64, reflect.Uintptr:
@@ -265,6 +269,20 @@ func (p *pooler) build(t reflect.Type, fuel int) []Gen {
 					gs = append(gs, mk(ent{ck[0], v0}, ent{ck[1], v1}))
 					gs = append(gs, mk(ent{ck[1], v1}, ent{ck[0], v0}))
 				}
+				// composite keys: the tail of the key pool (extreme components), and two
+				// representations of one key (sign of a zero) next to a third key
+				if kk := t.Key().Kind(); kk == reflect.Struct || kk == reflect.Array {
+					full := p.pool(t.Key(), fuel-1)
+					if n := len(full); n > 3 {
+						gs = append(gs, mk(ent{full[n-1], v0}, ent{full[n-2], v1}))
+						gs = append(gs, mk(ent{full[n-2], v1}, ent{full[n-1], v0}))
+					}
+					if x, y, z, ok := signTwins(full); ok {
+						gs = append(gs, mk(ent{x, v0}, ent{z, v1}))
+						gs = append(gs, mk(ent{y, v0}, ent{z, v1}))
+						gs = append(gs, mk(ent{z, v1}, ent{y, v0}))
+					}
+				}
 				if len(kp) >= 3 {
 					gs = append(gs, mk(ent{kp[0], v0}, ent{kp[2], v1}))
 					gs = append(gs, mk(ent{kp[2], v0}, ent{kp[1], v1}, ent{kp[0], v1}))
@@ -361,6 +379,55 @@ func (p *pooler) build(t reflect.Type, fuel int) []Gen {
 		panic("rt.Pool: unsupported kind " + t.Kind().String() + " in " + t.String())
 	}
 	return gs
+}
+
+// signTwins finds in a pool two values that are equal under == but differ in
+// the sign of a zero, and a third value that sorts between or beside them.
+func signTwins(gs []Gen) (x, y, z Gen, ok bool) {
+	if len(gs) > 200 {
+		gs = gs[:200]
+	}
+	cs := make([]string, len(gs))
+	for i, g := range gs {
+		cs[i] = Canon(g())
+	}
+	for i := range gs {
+		for j := i + 1; j < len(gs); j++ {
+			if cs[i] != cs[j] || !signDiffers(gs[i](), gs[j]()) {
+				continue
+			}
+			for k := range gs {
+				if cs[k] != cs[i] {
+					return gs[i], gs[j], gs[k], true
+				}
+			}
+		}
+	}
+	return nil, nil, nil, false
+}
+
+// signDiffers reports whether two ==-equal values differ in the sign of a floating point zero.
+func signDiffers(a, b reflect.Value) bool {
+	a, b = access(Addressable(a)), access(Addressable(b))
+	switch a.Kind() {
+	case reflect.Float32, reflect.Float64:
+		return math.Signbit(a.Float()) != math.Signbit(b.Float())
+	case reflect.Complex64, reflect.Complex128:
+		return math.Signbit(real(a.Complex())) != math.Signbit(real(b.Complex())) || math.Signbit(imag(a.Complex())) != math.Signbit(imag(b.Complex()))
+	case reflect.Struct:
+		for i := 0; i < a.NumField(); i++ {
+			if signDiffers(a.Field(i), b.Field(i)) {
+				return true
+			}
+		}
+	case reflect.Array:
+		for i := 0; i < a.Len(); i++ {
+			if signDiffers(a.Index(i), b.Index(i)) {
+				return true
+			}
+		}
+	}
+	return false
 }
 
 // collidingKeys returns two distinct keys of type t that collide under a
